@@ -1,2 +1,44 @@
-(* C08 — statements to come *)
-Require Import RV.Model.Server.
+(* C08 — no datagram sequence can crash or wedge a serving worker. Statements only. *)
+Require Import RV.Model.Bytes RV.Gen.Tables RV.Model.Merkle RV.Model.Keys RV.Model.Server
+        RV.Spec.MerkleGoals RV.Spec.ServerGoals.
+Require Import RV.Proofs.RequestFacts RV.Proofs.ServerFacts.
+Local Open Scope N_scope.
+
+(* For every queue of datagrams, every log level (the debug! argument nonce[0..4] is evaluated
+   in the model exactly when the level enables it), every fault percentage and every PRNG
+   outcome (Shuffle permutations over the six fields), processing returns normally — no panic
+   site is reached and the explicit fuel S (length queue) suffices, i.e. the drain terminates —
+   and the state still satisfies the invariant every theorem about serving assumes. *)
+Theorem C08_no_panic :
+  forall H ed_pk ed_sign, HashLen H -> PkLen ed_pk -> SigLen ed_sign ->
+  forall cfg lt oi oc s queue clk coins,
+    SInv H ed_pk ed_sign cfg lt oi oc s -> (1 <= batch_size cfg)%nat -> (batch_size cfg <= 255)%nat ->
+    Forall coin_ok coins ->
+    exists s' out,
+      process_events H ed_sign s queue clk coins = Ok (s', out) /\ SInv H ed_pk ed_sign cfg lt oi oc s'.
+Proof. exact (fun H ed_pk ed_sign => no_panic H ed_pk ed_sign classify_wellformed). Qed.
+Print Assumptions C08_no_panic.
+
+(* a valid request sent afterwards is answered correctly: after ANY earlier traffic the next
+   call emits exactly the specified replies (fault injection off) *)
+Theorem C08_still_serves :
+  forall H ed_pk ed_sign, HashLen H -> PkLen ed_pk -> SigLen ed_sign ->
+  forall cfg lt oi oc s q1 clk1 coins1 q2 clk2 coins2,
+    SInv H ed_pk ed_sign cfg lt oi oc s -> fault_pct cfg = 0 ->
+    (1 <= batch_size cfg)%nat -> (batch_size cfg <= 255)%nat ->
+    exists s1 out1 s2 lg,
+      process_events H ed_sign s q1 clk1 coins1 = Ok (s1, out1)
+      /\ process_events H ed_sign s1 q2 clk2 coins2 =
+           Ok (s2, mkso (spec_drain_sent H ed_pk ed_sign (S (length q2)) (batch_size cfg)
+                           (ltk_srv_value H ed_pk lt) lt oi oc clk2 0 q2)
+                        (spec_drain_stats H ed_pk ed_sign (S (length q2)) (batch_size cfg)
+                           (ltk_srv_value H ed_pk lt) lt oi oc clk2 0 q2) lg).
+Proof.
+  intros H ed_pk ed_sign HH HP HS cfg lt oi oc s q1 clk1 coins1 q2 clk2 coins2 Hinv Hf Hb1 Hb2.
+  destruct (drain_spec H ed_pk ed_sign classify_wellformed HH HP HS cfg lt oi oc s q1 clk1 coins1 Hinv Hf Hb1 Hb2)
+    as [s1 [lg1 [E1 Hinv1]]].
+  destruct (drain_spec H ed_pk ed_sign classify_wellformed HH HP HS cfg lt oi oc s1 q2 clk2 coins2 Hinv1 Hf Hb1 Hb2)
+    as [s2 [lg2 [E2 _]]].
+  exists s1. eexists. exists s2, lg2. split; [exact E1|exact E2].
+Qed.
+Print Assumptions C08_still_serves.
